@@ -2,7 +2,9 @@
 //   ep=<input> [cbs=<script>,<script>,...]
 //                       scan that (single-block) input through every entry point, once per callback script ("-", a<k>, e<k>):
 //                       rules_scan_mem, rules_scan_file, rules_scan_fd, scanner_scan_mem, scanner_scan_file,
-//                       scanner_scan_fd, scanner_scan_mem_blocks (own single-block iterator), rules_scan_mem_blocks.
+//                       scanner_scan_fd, scanner_scan_mem_blocks (own single-block iterator), rules_scan_mem_blocks,
+//                       scanner_scan_mem after a yr_scanner_scan_proc on the same scanner, rules_scan_mem of an exact-size
+//                       heap copy, rules_scan_mem of a copy that is followed by letters.
 //                       After every call the resource protocol is checked: buffer untouched, no descriptor leaked, file
 //                       unchanged; for the fd entry points the CALLER's descriptor is still open, at the same offset,
 //                       readable, and a second scan on it gives the same trace. Then missing file / closed descriptor.
@@ -77,6 +79,12 @@ static void do_entry_points(const char* id, YR_RULES* rules, INPUT* in, int flag
   }
   uint8_t* copy = (uint8_t*) malloc(in->size + 1);
   memcpy(copy, in->data, in->size);
+  // the same bytes in a buffer of EXACTLY that size (any read past the end is a sanitizer report) and in a buffer that goes on
+  // with letters (a read past the end changes a `fullword` verdict)
+  uint8_t* exact = (uint8_t*) malloc(in->size ? in->size : 1);
+  memcpy(exact, in->data, in->size);
+  uint8_t* padded = (uint8_t*) malloc(in->size + 16);
+  memcpy(padded, in->data, in->size); memset(padded + in->size, 'A', 16);
   char* scripts = strdup(cbs && cbs[0] ? cbs : "-");
   char* sp[8]; int nsp = splitc(scripts, ',', sp, 8);
   printf("%s E ", id);
@@ -84,13 +92,13 @@ static void do_entry_points(const char* id, YR_RULES* rules, INPUT* in, int flag
   for (int si = 0; si < nsp; si++)
   {
     printf("%s%s=", si ? "^" : "", sp[si]);
-    for (int k = 0; k < 8; k++)
+    for (int k = 0; k < 11; k++)
     {
       int rc = 0; const char* res = NULL; char* first = NULL;
       int fds0 = count_fds();
       YR_SCANNER* sc = NULL;
       int fd = -1; off_t off0 = 0;
-      if (k >= 3 && k <= 6)
+      if ((k >= 3 && k <= 6) || k == 8)
       {
         if (yr_scanner_create(rules, &sc) != ERROR_SUCCESS) DIE("scanner create");
         yr_scanner_set_flags(sc, flags); yr_scanner_set_timeout(sc, timeout); yr_scanner_set_callback(sc, vf_scan_cb, &r.t);
@@ -111,6 +119,17 @@ static void do_entry_points(const char* id, YR_RULES* rules, INPUT* in, int flag
         else if (k == 3) rc = yr_scanner_scan_mem(sc, in->data, in->size);
         else if (k == 4) rc = yr_scanner_scan_file(sc, path);
         else if (k == 5) rc = yr_scanner_scan_fd(sc, fd);
+        else if (k == 8)
+        {
+          // the scanner object has scanned a process before: its flags (e.g. a user-set SCAN_FLAGS_PROCESS_MEMORY) must be intact
+          get_child();
+          cb_script(&r.t, "-");
+          yr_scanner_scan_proc(sc, (int) vf_child);
+          cb_script(&r.t, sp[si]); tr_reset(&r.t);
+          rc = yr_scanner_scan_mem(sc, in->data, in->size);
+        }
+        else if (k == 9) rc = yr_rules_scan_mem(rules, exact, in->size, flags, vf_scan_cb, &r.t, timeout);
+        else if (k == 10) rc = yr_rules_scan_mem(rules, padded, in->size, flags, vf_scan_cb, &r.t, timeout);
         else
         {
           it_init(&r.it, &r.ic, in, NULL, sc, 0);
@@ -198,7 +217,7 @@ static void do_entry_points(const char* id, YR_RULES* rules, INPUT* in, int flag
     chmod(xd, 0755); unlink(xf); rmdir(xd); rmdir(sub); unlink(hl); unlink(l2); unlink(l1); unlink(base); rmdir(dir);
   }
   printf("\n");
-  free(copy); free(scripts);
+  free(copy); free(scripts); free(exact); free(padded);
   if (made) unlink(path);
 }
 
